@@ -39,6 +39,7 @@ class Fn:
         self.nodes = {}
         self.block_of = {}
         self.pos_of = {}
+        self.ref_init = {}
         self.const_init = {}        # vid of a const-qualified local -> its initialiser (element id or inline node)
         for b in f.get('blocks', []):
             for pos, e in enumerate(b['el']):
@@ -51,6 +52,12 @@ class Fn:
                     for d in e.get('decls', []):
                         if d.get('const') and d.get('init') is not None and not d.get('sl') and not d.get('t', '').endswith('&'):
                             self.const_init[d['vid']] = d['init']
+                        elif d.get('t', '').endswith('&') and d.get('init') is not None and not d.get('sl'):
+                            self.ref_init[d['vid']] = d['init']      # `T & r = <lvalue>;` -- an alias, resolved after the loop
+        for vid, init in self.ref_init.items():
+            n = self.strip_all_casts(init)
+            if n['k'] in ('MemberExpr', 'ArraySubscriptExpr', 'DeclRefExpr') or (n['k'] == 'UnaryOperator' and n.get('op') == '*'):
+                self.const_init[vid] = init                           # a reference local bound to an lvalue stands for that lvalue
         # `if (a || (b && c))`: the terminator of the last short-circuit block reports the whole
         # logical expression; the condition actually branched on is its right-most operand.
         for b in f.get('blocks', []):
@@ -66,6 +73,47 @@ class Fn:
         self._pdom = None
         self._parents = None
         self.fx = None
+        self._env = None
+        self._uniform_locals()
+
+    def _uniform_locals(self):
+        """a non-const scalar/pointer local all of whose definitions are the same expression (`Slot *kid = s->firstChild();` ...
+        `kid = s->firstChild();`) and that is never incremented, compound-assigned, address-taken or bound to a reference stands
+        for that expression when rendered with resolve=True -- hoisting an expression into such a local must not change a verdict"""
+        decls = {}
+        for _, e in self.elements():
+            if e['k'] == 'DeclStmt':
+                for d in e.get('decls', []):
+                    t = d.get('t', '')
+                    if d.get('dk') == 'Var' and d.get('vid') is not None and d['vid'] not in self.const_init and not d.get('sl') \
+                            and not t.endswith('&') and not t.endswith(']') and (t.rstrip().endswith('*') or int_type(t) is not None or t in ('bool', 'float')):
+                        decls[d['vid']] = d
+        if not decls:
+            return
+        defs = {v: ([d['init']] if d.get('init') is not None else []) for v, d in decls.items()}
+        bad = set()
+        par = self.parents()
+        for _, e in self.elements():
+            if e['k'] != 'DeclRefExpr' or e.get('vid') not in decls:
+                continue
+            v = e['vid']
+            for pi in par.get(e['i'], []):
+                p_ = self.nodes[pi]
+                k = p_['k']
+                if k == 'ImplicitCastExpr' and p_.get('ck') == 'LValueToRValue':
+                    continue
+                if k == 'BinaryOperator' and p_['op'] == '=' and p_['c'][0] == e['i']:
+                    defs[v].append(p_['c'][1])
+                    continue
+                bad.add(v)          # ++/--, op=, &x, reference binding, member access on a local object, ...
+        for v, ds in defs.items():
+            if v in bad or not ds:
+                continue
+            if len(ds) == 1 and decls[v].get('init') is None:
+                continue            # declared, assigned once somewhere: not necessarily before every use
+            texts = {self.render(self.strip_all_casts(x)) for x in ds}
+            if len(texts) == 1 and decls[v]['n'] not in next(iter(texts)):
+                self.const_init[v] = ds[0]
         self._env = None            # vid -> text while an inlined helper predicate is rendered in its caller's terms
 
     def render_in(self, n, env, resolve=False):
@@ -75,6 +123,30 @@ class Fn:
             return self.render(n, 0, resolve)
         finally:
             self._env = old
+
+    def deref(self, n):
+        """strip casts and look through locals that stand for one expression (const locals, reference locals, uniform locals)"""
+        n = self.strip_all_casts(n)
+        for _ in range(6):
+            if n['k'] == 'DeclRefExpr' and n.get('vid') in self.const_init and n.get('v') is None:
+                n = self.strip_all_casts(self.const_init[n['vid']])
+            else:
+                break
+        return n
+
+    def is_null(self, n, depth=0):
+        """n is a null pointer / zero: a literal, or a call of a function of this library that returns null on every path
+        (a cleanup helper such as `return discard(a, b);`)"""
+        v = self.strip_all_casts(n)
+        if v.get('v') == 0 or v['k'] in ('CXXNullPtrLiteralExpr', 'GNUNullExpr'):
+            return True
+        if v['k'] == 'CallExpr' and v.get('fq') and self.fx is not None and depth < 2:
+            cands = [g for g in self.fx.fns_named(v['fq']) if g.blocks]
+            if len(cands) == 1:
+                g = cands[0]
+                rets = [e for _, e in g.elements() if e['k'] == 'ReturnStmt' and e.get('c')]
+                return bool(rets) and all(g.is_null(e['c'][0], depth + 1) for e in rets)
+        return False
 
     def single_return_expr(self):
         """the expression E when the whole body is `return E;` (a pure helper predicate), else None"""
